@@ -151,7 +151,7 @@ IsSilent(p) == pc[p] \\in SilentLabels \\/ (atomic[p] /\\ pc[p] # "Done" /\\ ~(p
 SilentPriority == (\\E p \\in Procs : IsSilent(p)) => (\\E p \\in Procs : IsSilent(p) /\\ (pc'[p] # pc[p] \\/ stack'[p] # stack[p]))
 QS == [o \\in Objs |-> <<qstate[o], Len(jobs[o])>>]
 NoViol == h.viol = {}
-QuiescentOK == (~ENABLED Next) => ObsQuiescent(h, QS, MC_Single).viol = {}
+QuiescentOK == (~ENABLED Next) => LET v == ObsQuiescent(h, QS, MC_Single).viol IN IF v = {} THEN TRUE ELSE PrintT(<<"QTAGS", v>>) /\\ FALSE
 HView == <<qstate, qpoll, jobs, wakeBlocked, schedule, pthreads, nspawned, palive, busy, busyLocked, inbox, chanOpen, pfin, thrHeld, maxThreads,
            jkind, jaw, fres, fwaker, gfired, gwaker, gthreads, dwSt, dwW, dblTaken, dblW1, dblW2, nextDW, ready, cwait, cnotif, sdres, parkTok, rv, pc, stack>>
 ====
